@@ -32,6 +32,7 @@ import (
 )
 
 const simrtPath = "verifsim/simrt"
+const simnetPath = "verifsim/simnet"
 
 var (
 	src     = flag.String("src", "/repo", "goirc working tree")
@@ -212,6 +213,34 @@ func (r *rewriter) file(f *ast.File) {
 			r.st.syncs++
 			return true
 		})
+	}
+	// 2b. (*net.Dialer).DialContext: the direct, non-proxy dial goes to the
+	// simulated network as well
+	usesSimnet := false
+	if r.info != nil {
+		ast.Inspect(f, func(n ast.Node) bool {
+			ce, ok := n.(*ast.CallExpr)
+			if !ok {
+				return true
+			}
+			se, ok := ce.Fun.(*ast.SelectorExpr)
+			if !ok || se.Sel.Name != "DialContext" {
+				return true
+			}
+			if t := r.info.TypeOf(se.X); t == nil || (t.String() != "*net.Dialer" && t.String() != "net.Dialer") {
+				return true
+			}
+			// (the dialer stays an argument, so that a local variable holding it
+			// remains used)
+			ce.Args = append([]ast.Expr{se.X}, ce.Args...)
+			ce.Fun = &ast.SelectorExpr{X: ast.NewIdent("simnet"), Sel: ast.NewIdent("DirectDialContext")}
+			usesSimnet = true
+			r.st.syncs++
+			return true
+		})
+	}
+	if usesSimnet {
+		astutil.AddImport(r.fset, f, simnetPath)
 	}
 	// 2. sync types
 	if syncName != "" && syncName != "_" && syncName != "." {
